@@ -5,6 +5,14 @@ import os
 VERIF = os.path.dirname(os.path.dirname(os.path.abspath(__file__)))
 
 CLAIMED = {
+    "C01": ("TLA+ TraceXform (refinement under hiding) + TLC validation of plain/twin/instrumented runs of IR programs",
+            "for every program of the IR families and every control-flow path found, the instrumented runs (tooled, in-place, "
+            "non-overriding probes on variable subsets) are compared by TLC with the untouched function: same observable "
+            "helper log, side effects, yields and result"),
+    "C05": ("TLA+ LifeAbs/LifeMech: TLC enumerates all histories, each replayed with real probes and validated by TraceLife",
+            "all activation/deactivation/call histories up to a bound are enumerated by TLC on the mechanism model, executed "
+            "with real Probe objects and validated step by step against the A-level clauses (Receives, Silent, Quiescent, "
+            "NoStaleHandlers, ActiveInstalled, refusal leaves no trace)"),
     "C02": ("TLA+ PteraAbs + TLC trace validation of scripted-world runs",
             "each real run (random binding sequences x every focus/context choice) is validated by TLC against the A-level "
             "definition of a focused probe's stream (one event per binding of the focus, context at latest values)"),
